@@ -418,3 +418,23 @@ func EnvInt(name string, def int) int {
 	}
 	return def
 }
+
+// seqChooser is a deterministic pseudo-random chooser (LCG), used only for one-time artefact
+// generation (the golden corpus), never inside a property.
+type seqChooser struct {
+	recorder
+	x uint64
+}
+
+// NewSeqChooser returns a deterministic chooser for a seed.
+func NewSeqChooser(seed uint64) Chooser { return &seqChooser{x: seed*2862933555777941757 + 3037000493} }
+
+func (c *seqChooser) Int(label string, lo, hi int) int {
+	c.x = c.x*6364136223846793005 + 1442695040888963407
+	v := lo
+	if hi > lo {
+		v = lo + int((c.x>>33)%uint64(hi-lo+1))
+	}
+	c.draws = append(c.draws, int64(v))
+	return v
+}
